@@ -11,7 +11,10 @@ RULE = ("kinds: gen (SampleSegregating incl. several samples at / below the size
         "single-agent reveal), filter (combination filter, arity 1-3), smooth (FixedSize, OptimalSize, NPlatePerCellLine, MergeMin, "
         "MergeTopBottom, BatchieEnsemble); random screens as in C11 plus the two witness shapes of DESIGN section 6 rows 4 and 5; "
         "recorded rng / heappop / argsort answers fed to the model (variant fixed=false|true chosen by replaying the canonical witness "
-        "on /repo); each clause of the property evaluated directly on the real output.  Non-trivial: at least one unobserved experiment.")
+        "on /repo); each clause of the property evaluated directly on the real output.  Non-trivial: at least one unobserved experiment.  Gap round: "
+        "MergeMin's plate sizes per sample must equal the REPLAY of the stop rule on the input sizes (merge the two smallest while they "
+        "sum to <= min_size): no early stop, no merge beyond the stop, per sample and per step; Pairwise also on arity 1 and 3; screens with "
+        "up to 7 samples, special observation values, superset mappings (see C11).")
 THEOREMS = {
     "C13_model_is_source_generate_plates": "the wrapper model `wrap f` equals, for every inner generator f (in particular generate_plates g for the shipped ones), the translation of the whole method RetrospectivePlateGenerator.generate_plates regenerated from /repo's current core.py on this run (Generated/SrcRetro.v)",
     "C13_model_is_source_smooth_plates": "likewise for RetrospectivePlateSmoother.smooth_plates and every inner smoother",
@@ -46,6 +49,8 @@ THEOREMS = {
     "C13_nplate_minimum": "repaired logic (fixed=true): every sample left has at least min unobserved plates",
     "C13_nplate_minimum_refuted": "code as found (fixed=false): witness A:1, B:3, C:1 plates with minimum 2 leaves C with 1 plate",
     "C13_merge_same_sample": "MergeMin / MergeTopBottom: output plates hold one sample each (only plates of one sample are merged); TopBottom with no iteration merges nothing",
+    "C13_mergemin_satisfied_sample_untouched": "MergeMin, per sample: a sample whose unobserved plates already satisfy the stop rule keeps exactly its plates, each with exactly its rows, whatever merging other samples need (C13_mergemin_stop says so only when EVERY sample satisfies it)",
+    "C13_ensemble_minimum": "the per-sample minimum holds of the ENSEMBLE smoother's output too (its last stage is the per-sample-minimum smoother on what MergeMin, MergeTopBottom and OptimalSize leave)",
     "C13_mergemin_stop": "MergeMin, every accepted heappop answer: in the output any two distinct unobserved plates of one sample together exceed min_size; if that already holds of the input nothing is merged",
     "C13_topbottom_halves": "MergeTopBottom: one iteration takes the number of plates of the sample from n to ceil(n/2), leaves other samples' plates alone, and breaks only at n <= 1",
     "C13_topbottom_counts": "MergeTopBottom end to end: every sample's number of unobserved plates is halved (rounding up) n_iterations times",
@@ -177,7 +182,7 @@ def gen(rng, tier):
         params = dict(max=rng.choice([1, 2, 3, 4, 5, rng.choice(per), rng.choice(per), max(per), max(1, rng.choice(per) - 1), 0, -1, 100]))
         yield dict(kind="gen", cls="ss", params=params, screen=sd, seed=rng.randrange(10 ** 6))
     for _ in range(60 * k):
-        sd = L.gen_screen(rng, arity=2, n_treat=rng.randint(2, 6))
+        sd = L.gen_screen(rng, arity=rng.choice([2, 2, 2, 2, 1, 3]), n_treat=rng.randint(2, 6))
         if rng.random() < 0.3:
             sd = L.inject_all_control(rng, sd)
         params = dict(subset=rng.choice([1, 1, 1, 2, 2, 3, 0, -1]), anchor=rng.choice([0, 0, 0, 1, 2, 3]))
